@@ -88,6 +88,10 @@ def cases(ctx, budget):
             # an operator where an operand belongs, several operands in a row
             soup = " ".join(rng.choice(SOUP) for _ in range(rng.randint(2, 6)))
             text = rng.choice(["$[?(%s)]", "$[?%s]", "$[?length((%s)) == 1]", "$[?@.a && (%s)]", "$[?!(%s)]", "$[?count(@[?(%s)]) > 0]", "$[?((%s))]"]) % soup
+        elif r < 0.86 and i % 3 == 0:
+            # grammatical filters that are not necessarily well-typed (calls nested in calls, queries and comparisons in every argument position):
+            # compile() must refuse the ill-typed ones with a JSONPathError - if it lets one through, find() below must still not raise anything else
+            text = gen.render_query(rng, [(rng.choice(["child", "desc"]), [("filter", gen.loose_test(rng, gen.SIMPLE_NAMES, reg, rng.randint(1, 3)))])])
         elif r < 0.8: text = "$[?@.a == %s%s]" % (rng.choice(["", "-"]), rng.choice(["1e400", "1" + "0" * 400, "1e-400", "0." + "0" * 400 + "1", "1e99999", "9" * 30 + "." + "9" * 30, "1E+309"]))
         else:
             base = gen.render_query(rng, gen.rand_query(rng, names=gen.NAMES if rng.random() < 0.3 else gen.SIMPLE_NAMES, depth=rng.randint(1, 3)))
